@@ -274,6 +274,14 @@ class Exec(Engine):
         return out
 
     def binop(self, st, op, a, b, node):
+        for which, v in ((0, a), (1, b)):
+            if isinstance(v.t, OptT) and v.ref is None:
+                # arithmetic on an Optional: TypeError if it is None, otherwise the operation on the value
+                outs, ok = self.guard(st, z3.Not(opt_is_none(v.t, v.z)), 'TypeError', node, 'operand is None')
+                if ok is not None:
+                    u = self.load_val(ok, v.t.base, opt_val(v.t, v.z))
+                    outs.extend(self.binop(ok, op, u if which == 0 else a, b if which == 0 else u, node))
+                return outs
         ta, tb = a.t, b.t
         if ta == BOOL and tb in (INT, BOOL) and not isinstance(op, (ast.BitAnd, ast.BitOr, ast.BitXor)): a = coerce(a, INT); ta = INT
         if tb == BOOL and ta == INT: b = coerce(b, INT); tb = INT
